@@ -492,8 +492,27 @@ def _wide_inputs(rng, n, rules, coalition=False):
         while len(ballots) < nb:
             r = rng.sample(cands, rng.randint(1, nc))
             ballots.append({"r": [[c] for c in r], "w": rat(weight())})
+        quota = "droop" if coalition else rng.choice(["droop", "droop", "hare"])
+        if not coalition and rng.random() < 0.25:
+            # a first-round tally just below / exactly at / just above the quota (off by 1e-10 .. 1e-15 of a vote): >= is exact
+            x = rng.choice(cands)
+            others = [c for c in cands if c != x]
+            qv = rng.randint(5, 3000)
+            T = qv * m - rng.randint(0, m) if quota == "droop" else qv * (m - 1) + rng.randint(1, m)
+            eps = rng.choice([-1, -1, 0, 1]) * F(1, 10 ** rng.choice([10, 12, 15]))
+            if T > 0 or quota == "droop":
+                ballots, left = [], max(T, 0)
+                while left > 0:
+                    w = rng.randint(1, left)
+                    h = rng.choice(others)
+                    ballots.append({"r": [[h]] + [[c] for c in rng.sample([c for c in cands if c != h], rng.randint(0, nc - 1))], "w": [w, 1]})
+                    left -= w
+                part = F(rng.randint(1, qv - 1)) if qv > 1 and rng.random() < 0.5 else F(0)
+                for w in (part, qv + eps - part):
+                    if w > 0:
+                        ballots.append({"r": [[x]] + [[c] for c in rng.sample(others, rng.randint(0, nc - 1))], "w": rat(w)})
         rng.shuffle(ballots)
-        cfg = base_cfg(rule=rule, m=m, quota="droop" if coalition else rng.choice(["droop", "droop", "hare"]),
+        cfg = base_cfg(rule=rule, m=m, quota=quota,
                        simul=True if rule == "IRV" else rng.random() < 0.5,
                        xfer="full" if rule == "SequentialRCV" else "fractional", tb=rng.choice(["random", "borda", "first_place", "none"]))
         out.append({"cfg": cfg, "cands": cands, "ballots": ballots, "mode": "real", "seed": rng.randrange(10**6), "omit_defaults": rng.random() < 0.3})
